@@ -20,6 +20,9 @@ FORMULAS = [
     "y ~ x + (1|g)", "y ~ x + (x|g)", "y ~ (center(x)|g)", "y ~ (0 + f|g)", "y ~ (f|g)", "y ~ (x|g:h)", "y ~ (1|c1)",
     "y ~ (scale(z)|g) + (1|h)", "y ~ (poly(x, 2)|g)", "y ~ (x|C(k))", "y ~ (center(d0)|g)", "y ~ f + (c1|h)",
     "y ~ offset(z) + x", "y ~ offset(3) + x",
+    # one factor in several terms that are coded differently (term x sum products)
+    "y ~ 0 + f*(x + z)", "y ~ f*(x + z)", "y ~ 0 + f*(g + x)", "y ~ f*(g + x)", "y ~ 0 + (g + x)*f", "y ~ 0 + f/(x + z)", "y ~ 0 + f + f:x + f:z",
+    "y ~ 0 + C(k)*(x + f)", "y ~ 0 + g + f:(x + g)",
     # known findings on the pinned tree (recorded, not hidden):
     "y ~ B(s)", "y ~ binary(s, 'yes') + x", "y ~ C(k, levels=lv)", "y ~ C(o)", "y ~ B(k2)",
 ]
@@ -103,9 +106,12 @@ def _chunk(task):
 
 
 def PROOFS():
-    from ..contracts import call_resolver_c, transforms_c, variable_c
+    from ..contracts import call_resolver_c, transforms_c, variable_c, matrices_c, terms_c, utils_c   # noqa: F401
     T = "formulae.transforms."
     return [("vf.contracts.call_resolver_c", ["formulae.terms.call_resolver.LazyCall.eval"]),
+            # the containers: new data are evaluated term by term with the remembered terms, into a new object with the same slices
+            ("vf.contracts.matrices_c", ["formulae.matrices.CommonEffectsMatrix.evaluate_new_data", "formulae.matrices.GroupEffectsMatrix.evaluate_new_data"]),
+            ("vf.contracts.terms_c", ["formulae.terms.terms.GroupSpecificTerm.eval_new_data"]), ("vf.contracts.utils_c", utils_c.FUNCTIONS),
             ("vf.contracts.transforms_c", [T + "Center.__call__", T + "Scale.__call__", T + "BSpline.__call__", T + "BSpline._initialize", T + "BSpline.eval",
                                            T + "Polynomial.__init__"]),
             ("vf.contracts.variable_c", [f for f in variable_c.FUNCTIONS if f.endswith("eval_new_data_categoric")] +
